@@ -90,7 +90,7 @@ def build_input(c):
         for i in range(1, n + 1):
             t.append("EXCHANGE %d\n X 0.0015\n -equilibrate %d" % (i, i))
     elif solid == "calcite":
-        t.append("EQUILIBRIUM_PHASES 1-%d\n Calcite 0 0.0005" % n)
+        t.append("EQUILIBRIUM_PHASES 1-%d\n Calcite 0 0.004" % n)
     t.append("END")
     if c["fam"] == "ADV":
         t.append("ADVECTION\n -cells %d\n -shifts %d\n -time_step %r\n -punch_cells 1-%d\n -punch_frequency 1\n -print_frequency 1000" % (
@@ -195,6 +195,8 @@ def run_case(case):
         # vacuity guard: the whole-cell read-out must really include the solid
         if not any(r["sys_" + e] - r[e] > 1e-6 for cs_ in by_step.values() for r in cs_.values() for e in ("Na", "K", "Ca")):
             raise RuntimeError("SYS() totals never exceed the dissolved totals although a solid is present: %r" % (case,))
+        if any(r["sys_" + e] < r[e] * (1 - 1e-9) for cs_ in by_step.values() for r in cs_.values() for e in ELEMENTS):
+            raise RuntimeError("SYS() total below the dissolved total: %r" % (case,))
     tag_cfg = "mode=%s stag=%d" % (case.get("mode", "plain"), 1 if stag else 0)
     # the engine announces in a WARNING when it adds moles to repair a negative concentration in multicomponent diffusion
     engine_added = "Negative concentration in MCD: added" in (res["warn"] or "")
@@ -211,7 +213,7 @@ def run_case(case):
         worst["inventory"] = w
     if "shift" in reg:
         entry = init[0] if d > 0 else init[n + 1]
-        p, w = orc.check_shift(by_step, entry, n, d, ["w", "cb", "tc", "H", "O"] + ELEMENTS,
+        p, w = orc.check_shift(by_step, entry, n, d, ELEMENTS + ["H", "O", "w", "cb", "tc"],
                                "fam=%s dir=%s" % (case["fam"], case["dir"]), ELEMENTS)
         problems += p
         worst["shift"] = w
